@@ -80,7 +80,7 @@ def rule_retain(ctx):
             continue
         cm = p.cond_map()
         m = [labs for v, labs in cm.items() if v.endswith('self.manifest)') or v == 'call:Option::as_ref(self.manifest)' or 'self.manifest' in v and not v.startswith('cmp(')]
-        expiry = bool(re.search(r'not_after', p.outcome)) and 'Time::now' in p.outcome and (p.outcome.startswith('Gt(') or 'PartialOrd>::gt' in p.outcome or 'gt(' in p.outcome)
+        expiry = expiry_verdict(p)
         if m and m[0] == {'Some'}:
             n += 1
             ctx.check(expiry, 'K4', 'StoredPoint::retain:manifest=>not_after>now', 'a stored point is retained while its manifest certificate has not expired',
@@ -111,6 +111,25 @@ def _expiry(cm):
     return None
 
 
+def _is_expiry_expr(o):
+    return bool(re.search(r'not_after', o)) and 'Time::now' in o and (o.startswith('Gt(') or 'PartialOrd>::gt' in o or 'gt(' in o)
+
+
+def expiry_verdict(p, ok_wrap=False):
+    """Does the path's result equal `notAfter > now`? Either the result IS that comparison, or it is the constant the
+    comparison tested on the path implies (`if not_after <= now { return false } true`)."""
+    o = p.outcome or ''
+    if ok_wrap:
+        m = re.match(r'^Result::Ok\((.*)\)$', o)
+        if not m:
+            return False
+        o = m.group(1)
+    if _is_expiry_expr(o):
+        return True
+    e = _expiry(p.cond_map())
+    return (o == 'const(1)' and e == 'valid') or (o == 'const(0)' and e == 'expired')
+
+
 def rule_ta_cleanup(ctx):
     """store::Run::cleanup_ta: a stored trust-anchor certificate is deleted only if it does not decode or has expired;
     a decodable, unexpired copy is kept (it is what a later run falls back to when the download fails: shared with C10)."""
@@ -126,16 +145,23 @@ def rule_ta_cleanup(ctx):
             cm = p.cond_map()
             dec = [sorted(l) for v, l in cm.items() if v.startswith('call:Cert::decode')]
             exp = _expiry(cm)
-            if p.outcome == 'Result::Ok(const(0))':
+            o = p.outcome or ''
+            if re.match(r'^Result::Ok\(', o) and _is_expiry_expr(o[len('Result::Ok('):-1]):
+                # `Ok(cert.not_after() > now)`: kept iff unexpired, decided by the comparison itself
+                n_del += 1
+                n_keep += 1
+                ctx.check(dec and dec[0] == ['Ok'], 'K4', 'cleanup_ta:keep=>decodable&unexpired', 'kept copies decode and have not expired',
+                          'the expiry of a stored TA certificate is evaluated although decode=%s' % dec)
+            elif o == 'Result::Ok(const(0))':
                 n_del += 1
                 why = (dec and dec[0] == ['Err']) or exp == 'expired'
                 ctx.check(bool(why), 'K4', 'cleanup_ta:delete=>undecodable-or-expired', 'a TA copy is deleted only when undecodable or expired',
                           'a stored TA certificate is deleted on a path that established neither a decode failure nor expiry (conditions: %s)' % sorted(cm))
-            elif p.outcome == 'Result::Ok(const(1))':
+            elif o == 'Result::Ok(const(1))':
                 n_keep += 1
                 ctx.check(dec and dec[0] == ['Ok'] and exp == 'valid', 'K4', 'cleanup_ta:keep=>decodable&unexpired', 'kept copies decode and have not expired',
                           'a stored TA certificate is kept although decode=%s expiry=%s' % (dec, exp))
-            elif not (p.outcome or '').endswith('@Break.0'):
+            elif not o.endswith('@Break.0'):
                 ctx.bad('K4', 'cleanup_ta:outcome', 'unexpected outcome of the keep closure: %s' % p.outcome)
             other = sorted(v for v, l in cm.items() if not v.startswith('call:Cert::decode') and 'not_after' not in v and not v.startswith('call:fatal::read_file')
                            and p.outcome.startswith('Result::Ok'))
